@@ -126,13 +126,15 @@ def finishDb (d : Db) : Db := Id.run do
     spK := spK.insert n (combineLogK s.raw.own adds)
   let mut prim : HashMap String Unit := {}
   let mut msp : HashMap String F := {}
+  let lines : List (MasterLine F) := d.masters.toList.map fun m => { elt := m.elt, species := m.species, alk := m.alk, primary := m.primary }
   for m in d.masters do
     if m.elt == "Alkalinity" then continue
-    if m.primary then
-      prim := prim.insert m.species ()
-      if !(msp.contains m.species) then msp := msp.insert m.species m.alk
-    else
-      msp := msp.insert m.species m.alk
+    if m.primary then prim := prim.insert m.species ()
+    if !(msp.contains m.species) then
+      -- calc_alk's choice: the valence line takes precedence over the element line (`alk_lookup_order` ties the source to it)
+      match masterAlk true lines m.species with
+      | some a => msp := msp.insert m.species a
+      | none => pure ()
   return { d with named := named, namedRes := res, spK := spK, primarySp := prim, masterSp := msp }
 
 def Db.phaseK (d : Db) (p : DbPhase) : LogK F :=
@@ -147,7 +149,7 @@ def Db.dbEqn (d : Db) (n : String) : Option (Eqn F) :=
   | some s => some { head := n, body := s.body, k := (d.spK[n]?).getD zeroK }
 
 /-- the code's `equal(coef, 0.0, 1e-5)` -/
-def dropTol (c : F) : Bool := Float.abs c ≤ 1e-5
+def dropTol (c : F) : Bool := Float.abs c ≤ NumOps.lit combineTol
 
 def fuelMax : Nat := 40
 
@@ -175,6 +177,7 @@ structure Case where
   pe : HashMap String (List (String × F)) := {}
   pk : HashMap String (LogK F) := {}
   sp : Array (String × F × F × F × F) := #[]
+  xs : Array (String × F) := #[]
   phs : Array String := #[]
   us : Array (Unknown F) := #[]
   deriving Inhabited
@@ -196,6 +199,10 @@ def runCase (d : Db) (c : Case) (out : IO.FS.Stream) : IO Unit := do
   for (n, lm, lg, la, _) in c.sp do
     spset := spset.insert n ()
     let v := if c.use.contains n || n == "H2O" || n == "e-" then la else logActivity lm lg
+    laM := laM.insert n v
+  -- master species whose element is not in the solution but which the engine leaves in a rewritten equation
+  for (n, v) in c.xs do
+    spset := spset.insert n ()
     laM := laM.insert n v
   let la : String → F := fun n => (laM[n]?).getD (0.0 / 0.0)
   -- defining equations of the valence masters that are rewritten relative to the master in use
@@ -257,6 +264,7 @@ def runCase (d : Db) (c : Case) (out : IO.FS.Stream) : IO Unit := do
   let isMaster : String → Bool := fun n => d.masterSp.contains n
   let secDefs : String → Option (Eqn F) := fun n => if d.masterSp.contains n then none else d.dbEqn n
   let mut recs : Array (SpRec F) := #[]
+  let mut secM : HashMap String (List (String × F)) := {}
   for (n, lm, lg, _, moles) in c.sp do
     let start : Option (Eqn F) := if d.masterSp.contains n then some (identityEqn n) else d.dbEqn n
     match start with
@@ -269,7 +277,9 @@ def runCase (d : Db) (c : Case) (out : IO.FS.Stream) : IO Unit := do
         let lkx := K e.k
         let lkdb := K ((d.spK[n]?).getD zeroK)
         out.putStrLn s!"lk {n} {fx lkx} {fx lkdb}"
-        out.putStrLn s!"lm {n} {fx (speciateLm lkx lg la e.body)}"
+        let lmx := speciateLm lkx lg la e.body
+        out.putStrLn s!"lm {n} {fx lmx}"
+        out.putStrLn s!"mol {n} {fx (underMoles lmx c.W)}"
     -- database mass-action residual with the reported activities
     if !(d.masterSp.contains n) || rwDefs.contains n then
       match (if d.masterSp.contains n then rwDefs[n]? else d.dbEqn n) with
@@ -279,13 +289,15 @@ def runCase (d : Db) (c : Case) (out : IO.FS.Stream) : IO Unit := do
         | none => out.putStrLn s!"res {n} {fx (residual la K e)}"
       | none => pure ()
     -- alkalinity per mole from the master species of the secondary form
-    let alk : F :=
+    let secForm : Option (Eqn F) :=
       match (if d.masterSp.contains n then some (identityEqn n) else d.dbEqn n) with
-      | some e0 =>
-        match rewriteToMasters dropTol isMaster secDefs fuelMax e0 with
-        | some e => speciesAlk (fun m => (d.masterSp[m]?).getD 0.0) e
-        | none => 0.0 / 0.0
+      | some e0 => rewriteToMasters dropTol isMaster secDefs fuelMax e0
+      | none => none
+    let alk : F :=
+      match secForm with
+      | some e => speciesAlk (fun m => (d.masterSp[m]?).getD 0.0) e
       | none => 0.0 / 0.0
+    secM := secM.insert n ((secForm.map (·.body)).getD [])
     out.putStrLn s!"alk {n} {fx alk}"
     let z := ((d.species[n]?).map (·.z)).getD 0.0
     let elts := ((d.species[n]?).map (·.elts)).getD []
@@ -299,11 +311,20 @@ def runCase (d : Db) (c : Case) (out : IO.FS.Stream) : IO Unit := do
         seen := seen.insert e ()
         out.putStrLn s!"tot {e} {fx (total e rl)}"
   -- H2O, H+ and e- carry no charge/alkalinity sums in the engine only through their z/alk, which the records hold
+  -- totals per valence state (sum_species): master->coef = atoms of the element in the master species
+  for m in d.masters do
+    if !m.primary && m.elt != "Alkalinity" && spset.contains m.species then
+      let base := (m.elt.splitOn "(").headD m.elt
+      let atoms := coefOf base (((d.species[m.species]?).map (·.elts)).getD [])
+      out.putStrLn s!"vtot {m.elt} {fx (valenceTotal m.species atoms (fun n => (secM[n]?).getD []) rl)}"
   out.putStrLn s!"cb {fx (chargeBalance rl)}"
   out.putStrLn s!"mus {fx (ionicSum rl)}"
   out.putStrLn s!"mu {fx (ionicStrength rl c.W)}"
   out.putStrLn s!"talk {fx (alkalinity rl)}"
   out.putStrLn s!"pH {fx (pH la)}"
+  -- LK_NAMED: a named expression evaluated like `calc_logk_n` (add_other_logk on a zero vector)
+  for (nn, k) in d.namedRes.toList do
+    out.putStrLn s!"nk {nn} {fx (K (addOther zeroK k 1.0))}"
   for pn in c.phs do
     match d.phases[pn]? with
     | none => out.putStrLn s!"si {pn} unknown-phase"
@@ -358,6 +379,7 @@ def run : IO Unit := do
     | "pe" :: n :: rest => cur := { cur with pe := cur.pe.insert n (parsePairs rest).1 }
     | "pk" :: n :: rest => cur := { cur with pk := cur.pk.insert n (parseK9 rest) }
     | ["sp", n, lm, lg, la, mo] => cur := { cur with sp := cur.sp.push (n, hx lm, hx lg, hx la, hx mo) }
+    | ["xs", n, la] => cur := { cur with xs := cur.xs.push (n, hx la) }
     | ["ph", n] => cur := { cur with phs := cur.phs.push n }
     | ["u", t, mo, f, r, a] =>
       cur := { cur with us := cur.us.push { type := utype t, moles := hx mo, f := hx f, resid := hx r, aux := hx a } }
